@@ -1,7 +1,7 @@
 package local
 
 import (
-	"bytes"
+	"io"
 
 	"github.com/buildbarn/bb-storage/pkg/blobstore/buffer"
 	"github.com/buildbarn/bb-storage/pkg/digest"
@@ -52,7 +52,9 @@ func (ib *inMemoryBlock) Put(sizeBytes int64) BlockPutWriter {
 	ib.writeOffsetBytes += int(sizeBytes)
 	return func(b buffer.Buffer) BlockPutFinalizer {
 		// Ingest data.
-		err := b.IntoWriter(bytes.NewBuffer(ib.data[offsetBytes:offsetBytes]))
+		err := b.IntoWriter(&inMemoryBlockWriter{
+			data: ib.data[offsetBytes : offsetBytes+int(sizeBytes)],
+		})
 		return func() (int64, error) {
 			return int64(offsetBytes), err
 		}
@@ -60,3 +62,21 @@ func (ib *inMemoryBlock) Put(sizeBytes int64) BlockPutWriter {
 }
 
 func (inMemoryBlock) Release() {}
+
+// inMemoryBlockWriter writes data directly into the space that was
+// allocated for an object. A bytes.Buffer cannot be used for this
+// purpose, as its ReadFrom() method (used by io.Copy()) reallocates the
+// underlying slice when little capacity remains, causing trailing data
+// to be stored outside of the block.
+type inMemoryBlockWriter struct {
+	data []byte
+}
+
+func (w *inMemoryBlockWriter) Write(p []byte) (int, error) {
+	n := copy(w.data, p)
+	w.data = w.data[n:]
+	if n < len(p) {
+		return n, io.ErrShortWrite
+	}
+	return n, nil
+}
